@@ -6,4 +6,5 @@ def main : IO UInt32 :=
   runDriver (fun family params lines =>
     match family with
     | "c10" => C10.check params lines
+    | "c10noexc" => C10.checkNoExc params lines
     | _ => { bad := [s!"unknown family {family}"] })
